@@ -183,7 +183,8 @@ def check(R):
     if ids:
         R.cut('P2', mt, 'return true', trues, 'exact subject match or CAT ids equal', lambda: exact_edges() | prims.bool_local_edges(mt, ids[0][5])[0])
     cats = mt.calls('acl::is_noc_cat')
-    R.floor('is_noc_cat calls', len(cats), 2)
+    R.expect('P2', mt.fn, 'both the accessor subject and the entry subject are tested with is_noc_cat before the CAT comparison', len(cats) >= 2,
+             f'{len(cats)} is_noc_cat tests', f'only {len(cats)} is_noc_cat test(s): a plain node id can be compared as if it were a CAT')
     for t in cats:
         R.cut('P2', mt, 'return true', trues, f'exact subject match or is_noc_cat@{mt.where(t.bb)}',
               lambda t=t: exact_edges() | prims.track_result(F, mt, t).success)
